@@ -817,7 +817,7 @@ pub fn run(tier: &str, seed: u64, replay: Option<String>) -> i32 {
         level: "exploration".into(),
         evaluations: cases.len() as u64,
         distinct_nontrivial: distinct as u64,
-        rule: "operations: convert a shipped project directory (with/without extra files), convert a shipped .ctehexml/.cte text, indicators of a pool model (shipped models + variants differing in one respect: climate zone, a moved shade, a set-back, a conductivity, all names, all ids). Each operation's result hash must equal the isolated reference (alone, first, fresh process, hash seed 0). Simulations: fresh processes under other hash seeds and clocks; seeded histories of 2..8 operations and ordered pairs on one thread; 2..16 real threads under the baton scheduler (uniform random / PCT / round-robin), scheduling points at every hook point and table-lock acquisition; plus: adding a copy of any by-name definition under a new name must keep every existing id, and the 6 shipped reference pairs must convert to the shipped models (as JSON values). Non-trivial and distinct = distinct interleavings (decision-trace hash) with a context switch inside a critical section + distinct operation sequences on one thread + distinct (operation, hash seed, clock) fresh-process cases".into(),
+        rule: "operations: convert a shipped project directory (with/without extra files; in place, from a copy elsewhere, from a copy that also holds a second project file created before or after it), convert a shipped or generated .ctehexml/.cte text, indicators of a pool model (shipped models + variants differing in one respect: climate zone, a moved shade, a set-back, a conductivity, all names, all ids). Each operation's result hash must equal the isolated reference (alone, first, fresh process, hash seed 0). Simulations: fresh processes under other hash seeds, realtime clocks, a monotonic clock that steps 1 ms / 2 s / 1 h per read, 1 / 2 / 5 / all CPUs and other environment variables; seeded histories of 2..8 operations and ordered pairs on one thread; 2..16 real threads under the baton scheduler (uniform random / PCT / round-robin), scheduling points at every hook point and table-lock acquisition; plus: adding a copy of any by-name definition under a new name (also a near-identical name, also with other values), swapping two unrelated definitions or renaming an unused one must keep every existing id, and the 6 shipped reference pairs must convert to the shipped models (as JSON values). Non-trivial and distinct = distinct interleavings (decision-trace hash) with a context switch inside a critical section + distinct operation sequences on one thread + distinct (operation, hash seed, clock) fresh-process cases".into(),
         samples,
         exhaustive: false,
         extra,
